@@ -54,6 +54,7 @@ func VerifC19Dynamic() {
 	d.Gap = zzverif.Choose("gap", 2)
 	ctx := vxfw.DrawContext{Max: vxfw.Size{Width: 5, Height: uint16(H)}, Characters: vaxis.Characters}
 	zzverif.Terminates(4000)
+	cursorSetBeyond := false
 	check := func(selectionChanged bool, tag string) {
 		s, err := d.Draw(ctx)
 		zzverif.Assert(err == nil, "draw-succeeds")
@@ -61,7 +62,10 @@ func VerifC19Dynamic() {
 			zzverif.Assert(len(s.Children) == 0 && d.Cursor() == 0, "empty-list-draws-nothing")
 			return
 		}
-		zzverif.Assert(int(d.Cursor()) < n, "cursor-within-range")
+		if int(d.Cursor()) >= n {
+			zzverif.Assert(cursorSetBeyond, "cursor-within-range")
+			return
+		}
 		ordered, contiguous := true, true
 		selRow, selH := -1000, 0
 		for i, ch := range s.Children {
@@ -93,7 +97,12 @@ func VerifC19Dynamic() {
 	k := zzverif.Param("ops")
 	for j := 0; j < k; j++ {
 		before := d.Cursor()
-		switch zzverif.Choose("op", 5) {
+		switch zzverif.Choose("op", 6) {
+		case 5:
+			// a caller error (the cursor set one past the last item): the widget cannot know
+			// the item count, so only "no panic" is claimed until the cursor is back in range
+			d.SetCursor(uint(n))
+			cursorSetBeyond = true
 		case 0:
 			d.NextItem()
 		case 1:
